@@ -2,11 +2,14 @@
 //! op lines for the Lean model driver and the implementation's canonical answers, and
 //! evaluates each property directly on the implementation (failing-input search).
 mod c05;
+mod c05m7;
 mod c05x;
 mod c06;
 mod c06msg;
+mod c06sim;
 mod c07;
 mod c08;
+mod c08boot;
 mod boundary;
 mod c01;
 mod c17;
@@ -18,12 +21,14 @@ mod c03;
 mod c03m7;
 mod c03srv;
 mod routes;
+mod route_table;
 mod routes_gen;
 mod c02;
 mod c11;
 mod c11x;
 mod c12;
 mod c12x;
+mod c12j;
 mod c12fs;
 mod c13;
 mod c13x;
